@@ -408,7 +408,11 @@ class Check(PropertyCheck):
                   "b2a_base64, str.encode, mkauth (b64_roundtrip, mkauth_parses, standard_credential_wellformed, "
                   "standard_credentials_accepted_on_every_path: `Basic base64(utf8(u:p))` is accepted on every HTTP path with no "
                   "hypothesis on the token, passwords with ':' included), and the 401/407 page (auth_response_shape, "
-                  "deny_code_is_response_status); (round 4) NO library function of the token path is a parameter any more: "
+                  "deny_code_is_response_status); the header-removal clause is stated for plain requests by credential_header_removed "
+                  "and decision_for_every_header_list (every non-memoised request: fwd (hdrDel …)) and for the CONNECT path by "
+                  "connect_hook_removes_credential_header / credential_header_removed_connect (the hook strips the field from the "
+                  "flow; the CONNECT mitmproxy writes to an upstream proxy is a new head with Host only, upstreamConnectFields — "
+                  "the tie requires exactly that head and the oracle scans it for the client's credential header); (round 4) NO library function of the token path is a parameter any more: "
                   "bytes.decode('utf8','replace') and bytes.decode('utf-8','backslashreplace') are transcribed (CPython's maximal-"
                   "subpart error ranges) and proved to invert str.encode on Unicode scalar values (utf8_roundtrip, "
                   "utf8_roundtrip_backslashreplace, decodeCredStd_b2a), giving the closed forms mkauth_parses_closed, "
@@ -866,6 +870,7 @@ class Check(PropertyCheck):
                     ti = getattr(cn, "tunnel_idx", idx)
                     o["upconnect"].append("ok" if (target == b"t%d.example:80" % ti and self.render_fields(hs) == "-")
                                           else target.decode("latin1") + ":" + self.render_fields(hs))
+                    o.setdefault("upconnect_fields", []).append(self.render_fields(hs))
                 else:
                     mt = re.search(rb"/r(\d+)$", target)
                     o["fwd"].append(("R%s:" % (mt.group(1).decode() if mt else "?")) + self.render_fields(hs))
@@ -947,6 +952,16 @@ class Check(PropertyCheck):
         for idx, (st, o) in enumerate(zip(case["steps"], obs["steps"])):
             cid = st["c"]; mode = case["conns"][cid]["mode"]
             forwarded = bool(o["fwd"]) or o["tunnel"] or o["opened"] or bool(o["upconnect"]) or o["raw_up"] > 0
+            # "the credential header is removed before the request is forwarded" — the CONNECT path: the CONNECT head that
+            # mitmproxy writes to the upstream proxy for a client's tunnel must not carry the client's credential header
+            # (a field of that name holding exactly the configured upstream_auth credential is UpstreamAuth's own)
+            upc = cps("Basic " + base64.b64encode(case["upauth"].encode()).decode()) if case.get("upauth") else None
+            for fields in o.get("upconnect_fields", []):
+                for x in ([] if fields == "-" else fields.split(",")):
+                    nm, _, vl = x.partition("=")
+                    if unhx(nm) in (b"proxy-authorization", b"authorization") and vl != upc:
+                        fails.append(f"step {idx}: client credential header {unhx(nm).decode()} present in the CONNECT "
+                                     f"forwarded to the upstream proxy: {fields}")
             if st["k"] == "sa":
                 u, p = lib_sock_decode(unhx(st["u_hex"])), lib_sock_decode(unhx(st["p_hex"]))
                 ok = val_accepts(val, u, p)
